@@ -21,9 +21,10 @@ ASSUMPTIONS = ['the option file is read back by splitting it into shell words (o
 BASES = {
     'dipole': ['-f', '14.2', '-w', '6,0,0,0,0,0,5,.002', '-w', '4,0,0,5,1,2,6,.001', '--excitation-pulse=3'],
     'mixed': ['-f', '14.2', '-a', '5,5,1,0,120,.002', '--helix=2,8,1,0.5,.002,.3,.3', '-w', '9,3,-0.5,0,0.8660254037844387,-1.5,0.5,1.6,.002',
-              '--geo-translate=1,0,0,3,2', '--excitation-pulse=2,5'],
+              '--geo-translate=1.01,0,0,3,2', '--geo-rotate=1.02,0,0,40,2', '--excitation-pulse=2,5'],
     'ground': ['-f', '7.1', '-w', '4,0,0,0,0.5,0.5,3,.002', '-w', '4,0.5,0.5,3,3,1,4,.002', '--medium=13,0.005,0,5', '--medium=3,0.001,-1',
                '--radial-count=8', '--radial-radius=0.001', '--excitation-pulse=1'],
+    'arcgnd': ['-f', '14.2', '-a', '6,1.5,0,180,.002', '-w', '3,0.3,0.5,1.8,1.3,2,2.3,.002', '--medium=0,0,0', '--excitation-pulse=1'],
     'loaded': ['-f', '21.3', '-w', '4,0,0,1,0.5,0.8,2,0.001', '-w', '5,0.5,0.8,2,2,0.5,2.6,0.002', '-w', '3,2,0.5,2.6,2.5,2,2,0.001',
                '--excitation-pulse=2', '--load=10+5j', '--attach-load=1,4'],
 }
@@ -82,6 +83,9 @@ def menu():
                                                                      '--attach-load=%d,2' % (2 if any(x.startswith('--load') for x in a) else 1)])
     for att in ('1,all', '1,all,1', '1,all,2', '1,2,2', '1,1,1', '1,all,7', '1,all,9', '1,2,5'):
         add('attach=' + att, lambda a, att=att: drop(drop(a, '--load'), '--attach-load') + ['--load=7+2j', '--attach-load=' + att])
+    add('rlc-attached-first', lambda a: drop(drop(a, '--load'), '--attach-load') + ['--load=7+2j', '--rlc-load=5,1e-6,', '--attach-load=2,1', '--attach-load=1,3'])
+    add('laplace-trap-impedance-order', lambda a: drop(drop(a, '--load'), '--attach-load') + ['--load=7+2j', '--trap-load=2,1e-6,50e-12', '--laplace-load-a=1,2e-9', '--laplace-load-b=10,3e-6',
+                                                                                           '--attach-load=3,1', '--attach-load=2,2', '--attach-load=1,3'])
     add('attach2obj', lambda a: drop(drop(a, '--load'), '--attach-load') + ['--load=7-2j', '--attach-load=1,all,1', '--attach-load=1,all,2'])
     add('attach-mixed', lambda a: drop(drop(a, '--load'), '--attach-load') + ['--load=7-2j', '--attach-load=1,all,2', '--attach-load=1,1,1', '--load=3', '--attach-load=2,2'])
     for v in ('1e6', '5.8e7,1', '3e5,2', '1e5,7'):
